@@ -61,3 +61,50 @@ func VP_RS_fields() {
 	}
 	vpCover("reached", true)
 }
+
+// vpSyndromesZero: data||ecc vanishes at alpha^(base) .. alpha^(base+e-1) (reference arithmetic only).
+func vpSyndromesZero(gf *GaloisField, pp int, data, ecc []int) bool {
+	m := VPLog2(gf.Size)
+	ok := true
+	for j := 0; j < len(ecc); j++ {
+		root := VPPowRef(pp, m, gf.Base+j)
+		acc := 0
+		for _, d := range data {
+			acc = VPGFMulRef(pp, m, acc, root) ^ d
+		}
+		for _, c := range ecc {
+			acc = VPGFMulRef(pp, m, acc, root) ^ c
+		}
+		ok = ok && acc == 0
+	}
+	return ok
+}
+
+// VP_RS_concurrent (C16): two goroutines use one encoder at the same time, both needing generator
+// polynomials that are not cached yet. The executor runs them under the schedule in which every
+// Unlock is a preemption point, so that critical sections of the two callers alternate: whatever
+// the encoder reads under the lock must still be valid when it writes (no check-then-act across a
+// released lock). Each caller, and a third call afterwards, must get check symbols with zero
+// syndromes. Natively the two goroutines really run in parallel; the attempt is repeated on fresh
+// encoders (vpNativeRepeat) with a longer computation to widen the window.
+func VP_RS_concurrent() {
+	pp, size, base := vpConfig("pp"), vpConfig("size"), vpConfig("base")
+	e1, e2 := vpConfig("e1"), vpConfig("e2")
+	gf := NewGaloisField(pp, size, base)
+	d1 := []int{vpIntRange("a00", 0, size-1), vpIntRange("a01", 0, size-1)}
+	d2 := []int{vpIntRange("b00", 0, size-1)}
+	scale := vpNativeRepeat(12) // 1 under the executor
+	for rep := 0; rep < vpNativeRepeat(200); rep++ {
+		rs := NewReedSolomonEncoder(gf)
+		c1, c2 := make(chan []int), make(chan []int)
+		go func() { c1 <- rs.Encode(d1, e1*scale) }()
+		go func() { c2 <- rs.Encode(d2, e2*scale) }()
+		r1 := <-c1
+		r2 := <-c2
+		vpAssert(len(r1) == e1*scale && vpSyndromesZero(gf, pp, d1, r1), "first concurrent caller gets correct check symbols")
+		vpAssert(len(r2) == e2*scale && vpSyndromesZero(gf, pp, d2, r2), "second concurrent caller gets correct check symbols")
+		r3 := rs.Encode(d1, e2*scale)
+		vpAssert(len(r3) == e2*scale && vpSyndromesZero(gf, pp, d1, r3), "the encoder is still correct after concurrent use")
+	}
+	vpCover("reached", true)
+}
